@@ -175,6 +175,85 @@ func solve(script string, timeoutS int, wantModel bool) solveResult {
 	return raceSolvers(script, timeoutS, r)
 }
 
+// constArraysForCVC5 rewrites constant arrays whose element is not a literal
+// value — ((as const (Array Int S)) (mk-S c ...)) with c a declared constant —
+// which cvc5 1.0 rejects at parse time ("expected a value"), into a fresh array
+// constant with the axiom that every element equals that term.  The axiom is a
+// consequence of the constant array, so unsat answers carry over.
+func constArraysForCVC5(script string) string {
+	const open = "((as const "
+	first := strings.Index(script, "(assert")
+	if first < 0 || !strings.Contains(script, open) {
+		return script
+	}
+	var decls []string
+	n, minI := 0, 0
+	balanced := func(s string, i int) int { // index just past the s-expression starting at s[i]
+		if s[i] != '(' {
+			j := i
+			for j < len(s) && s[j] != ' ' && s[j] != ')' && s[j] != '\n' {
+				j++
+			}
+			return j
+		}
+		depth := 0
+		for j := i; j < len(s); j++ {
+			switch s[j] {
+			case '(':
+				depth++
+			case ')':
+				depth--
+				if depth == 0 {
+					return j + 1
+				}
+			}
+		}
+		return -1
+	}
+	body := script[first:]
+	for guard := 0; guard < 10000; guard++ {
+		// innermost occurrence: the last one in the text has no other inside its value
+		i := strings.LastIndex(body, open)
+		if i < 0 {
+			break
+		}
+		sortStart := i + len(open)
+		sortEnd := balanced(body, sortStart)
+		if sortEnd < 0 || sortEnd >= len(body) || body[sortEnd] != ')' {
+			return script
+		}
+		valStart := sortEnd + 1
+		for valStart < len(body) && body[valStart] == ' ' {
+			valStart++
+		}
+		valEnd := balanced(body, valStart)
+		if valEnd < 0 || valEnd >= len(body) || body[valEnd] != ')' {
+			return script
+		}
+		srt, val := body[sortStart:sortEnd], body[valStart:valEnd]
+		if val == "true" || val == "false" || (len(val) > 0 && (val[0] >= '0' && val[0] <= '9' || val[0] == '#')) {
+			// a literal element is accepted as it is: hide this occurrence from the search
+			body = body[:i] + "((as\x01const " + body[sortStart:]
+			continue
+		}
+		n++
+		name := fmt.Sprintf("kconst!%d", n)
+		decls = append(decls, fmt.Sprintf("(declare-fun %s () %s)\n(assert (forall ((i!kc Int)) (! (= (select %s i!kc) %s) :pattern ((select %s i!kc)))))\n", name, srt, name, val, name))
+		body = body[:i] + name + body[valEnd+1:]
+		minI = i // occurrences are taken from the end backwards: the last one taken is the earliest
+	}
+	if len(decls) == 0 {
+		return script
+	}
+	// declare the new constants just before the line of their earliest use (every
+	// top-level form of a script is one line), after the sorts they mention
+	at := strings.LastIndexByte(body[:minI], '\n') + 1
+	body = body[:at] + strings.Join(decls, "") + body[at:]
+	decls = nil
+	body = strings.ReplaceAll(body, "((as\x01const ", open)
+	return script[:first] + strings.Join(decls, "") + body
+}
+
 // raceSolvers runs every solver on the script and takes the first verdict.
 func raceSolvers(script string, timeoutS int, r solveResult) solveResult {
 	ctx, cancel := context.WithCancel(context.Background())
@@ -184,7 +263,7 @@ func raceSolvers(script string, timeoutS int, r solveResult) solveResult {
 		go func(i int, s solverSpec) {
 			scr := script
 			if s.name == "cvc5" {
-				scr = strings.Replace(scr, "(set-logic ALL)", "(set-logic ALL)", 1)
+				scr = constArraysForCVC5(scr)
 			}
 			ch <- runSolver(ctx, s, scr, timeoutS)
 		}(i, s)
